@@ -16,12 +16,12 @@ EXTENDS Tp22Core, Mon22, Json, IOUtils
 
 Batch == JsonDeserialize(IOEnv.TRACE_FILE)
 
-VARIABLES tid, l, ns, pc, pend, dm, bm, silent, tmr, d1, bad
-vars == <<tid, l, ns, pc, pend, dm, bm, silent, tmr, d1, bad>>
+VARIABLES tid, l, ns, pc, pend, dm, bm, silent, tmr, d1, cfgv, bad
+vars == <<tid, l, ns, pc, pend, dm, bm, silent, tmr, d1, cfgv, bad>>
 
 Tr == Batch[tid]
 Ev == Tr.ev
-Cfg(n) == Tr.cfg[n]
+Cfg(n) == cfgv[n]          \* the configuration in force (a "cfg" event replaces it: listener removed, ...)
 Nodes == DOMAIN Tr.cfg
 
 Init ==
@@ -35,6 +35,7 @@ Init ==
     /\ silent = {}
     /\ tmr = [n \in DOMAIN Batch[tid].cfg |-> None]     \* deadline of the one-shot probe timer of each node
     /\ d1 = [src |-> <<>>, want |-> None, got |-> 0]     \* DM1 monitor (C16)
+    /\ cfgv = Batch[tid].cfg
     /\ bad = {}
 
 Has2(e, f) == f \in DOMAIN e
@@ -161,7 +162,7 @@ Apply(e) ==
       [] e.ev = "perr" -> IF Tr.expect.bus THEN Fail(e.msg) ELSE S(ns, pc, pend, dm, bm, {})
       [] e.ev = "jobdead" -> Fail("job thread died")
       [] e.ev = "spin" -> Fail("job thread busy-spins")
-      [] e.ev \in {"lost", "silence", "token", "note", "end"} -> S(ns, pc, pend, dm, bm, {})
+      [] e.ev \in {"lost", "silence", "token", "note", "end", "cfg"} -> S(ns, pc, pend, dm, bm, {})
       [] OTHER -> Fail("unknown event")
 
 (* C16 monitor: what the DM1 sender's callback supplied (dm1src) must be encoded per SAE J1939-73 (Codec) in the *)
@@ -224,6 +225,7 @@ Step ==
               THEN [tmr EXCEPT ![Ev[l].node] = IF "period" \in DOMAIN Ev[l] /\ Ev[l].period > 0 THEN @ + Ev[l].period ELSE None]   \* periodic: stays on its grid
               ELSE tmr
     /\ d1' = Dm1Next(d1, Ev[l])
+    /\ cfgv' = IF Ev[l].ev = "cfg" THEN [cfgv EXCEPT ![Ev[l].node] = Ev[l].cfg] ELSE cfgv
     /\ UNCHANGED tid
 
 Spec == Init /\ [][Step]_vars
